@@ -144,10 +144,11 @@ func c06histBody(depth int) func() {
 		policy := []service.LoadBalancePolicy{service.LoadBalancePolicy_ROUND_ROBIN, service.LoadBalancePolicy_RANDOM, service.LoadBalancePolicy_LEAST_CONNECTION}[sched.Choose(sched.ClsInput, 3, "policy")]
 		w := c06setup(policy, []string{"a", "b", "c"})
 		var hist []string
-		ops := []string{"add a", "add b", "add c", "remove a", "remove b", "remove c", "remove-as-other-type a", "replace {a}", "replace {b,c}", "replace {a,b,c}", "remove a,b", "remove b,a", "unhealthy a", "unhealthy b", "unhealthy c", "healthy a", "healthy b", "connect", "disconnect", "late-unhealthy a", "late-healthy a", "re-add a", "connect-first-dial-fails", "re-add-as-other-type a", "config-update", "config-update-rejected"}
+		ops := []string{"add a", "add b", "add c", "remove a", "remove b", "remove c", "remove-as-other-type a", "replace {a}", "replace {b,c}", "replace {a,b,c}", "remove a,b", "remove b,a", "unhealthy a", "unhealthy b", "unhealthy c", "healthy a", "healthy b", "connect", "disconnect", "late-unhealthy a", "late-healthy a", "re-add a", "connect-first-dial-fails", "re-add-as-other-type a", "config-update", "config-update-rejected", "flap a"}
 		// round robin: while neither membership nor health changes, any len(usable) consecutive selections visit every
 		// usable host once (configuration updates that keep the policy do not disturb the rotation)
 		var rrWindow []string
+		lastUsable := strings.Join(w.usable(), ",")
 		// the host object a health check started on at the beginning; its late results must not count once the
 		// address was removed or re-added as a fresh object
 		origA := w.stored("a")
@@ -155,10 +156,22 @@ func c06histBody(depth int) func() {
 			op := ops[sched.Choose(sched.ClsInput, len(ops), "op")]
 			hist = append(hist, op)
 			f := strings.Fields(op)
-			if f[0] != "connect" && f[0] != "disconnect" && f[0] != "config-update" && f[0] != "config-update-rejected" {
+			// (the rotation is only required to go on while the usable hosts stay what they are: an event that leaves
+			// them unchanged - a backup's health while main hosts serve, a member announced again, a removal of an
+			// address that is no member - does not disturb it)
+			if cur := strings.Join(w.usable(), ","); cur != lastUsable {
 				rrWindow = nil
+				lastUsable = cur
 			}
 			switch f[0] {
+			case "flap":
+				// one failed health check result and then a passing one between two connections
+				if h := w.stored(f[1]); h != nil {
+					w.p.hostSet.MarkHostUnhealthy(h)
+					w.p.hostSet.MarkHostHealthy(h)
+					w.healthy[f[1]] = true
+					rrWindow = nil
+				}
 			case "config-update-rejected":
 				// an update that changes the balancing policy and carries a health check the monitor rejects (the send
 				// string of its checker is not a quoted string): it is refused as a whole, the service keeps reporting
